@@ -4,6 +4,14 @@ import json, os
 V = os.path.dirname(os.path.dirname(os.path.abspath(__file__)))
 ALL = ["C%02d" % i for i in range(1, 21)]
 CLAIMED = {
+ "C04": dict(cat="translation_validation", tech="Coq-verified no-spin certificate checker on exported machines (vm_compute certificates + extracted checker)",
+    text="Every machine the current compiler accepts (corpus + generated programs, several -O levels) is exported structurally and must pass NoSpin.nospin_cert; its Coq soundness theorems (no_spin_step, no_spin_feed, yield_progress) give termination of every feed/end call within a bound linear in the chunk, for every state, symbol and data value under every data semantics, and no endless run of yields without progress. A rejected certificate yields a (state, symbol) cycle and an input reaching it.",
+    note="Program quantifier sampled. Trusted: Coq kernel; harness/export.py; Machine/Sem.v as the reading of the emitted C control skeleton (tied by the C06 correspondence); extraction+OCaml for the volume tier (a sample is re-certified inside Coq).",
+    ref="5 C04"),
+ "C05": dict(cat="translation_validation", tech="Coq-verified bisimulation certificate checkers between machines compiled at different levels/flags",
+    text="For each program the machine compiled with all optimisations off is compared with the machines compiled at -O1/-O2 and with each single optimisation flag by a strict bisimulation certificate (Bisim.dfa_equiv_cert), sound for all inputs and every data semantics (bisim_strict_sound): identical sequences of primitives, tests, yields, finishes, consumed-byte markers and results.",
+    note="Program quantifier sampled. The short-circuit pass (-O3), which may legally move actions by one position, needs the buffered relation (BBisim) and is only covered once that is built; `s = \"\"` and `delete s` are identified when comparing across -fuse-delete-for-empty-string. Trusted as for C04.",
+    ref="5 C05"),
  "C15": dict(cat="proof", tech="Coq proof over translator-regenerated model (pylite2coq) + CPython correspondence",
     text="Universal theorems (all strings, all digit strings, all 256 bytes) about the CURRENT bodies of _convert_string, _convert_char_const, _convert_int, _create_casei_from and _escape_string, which a fail-closed translator regenerates from /repo/nmfu.py into Gallina on every run; the translated reading is compared with CPython on ~2 700 enumerated inputs per run. A broken proof triggers a search (spec evaluated against the regenerated functions inside Coq, then Python/gcc replay) for a concrete literal.",
     note="Trusted: Coq kernel (vm_compute), translator/pylite2coq.py, Base/PyLite.v's reading of Python, Lit/LitSpec.v (spelling relation, C string-literal lexer). _convert_binary_string is tied by correspondence only; lark tokenisation and gcc are modelled, not verified.",
@@ -15,7 +23,7 @@ m = {
  "setup_cmd": "bash tools/setup.sh",
  "hooks": {"guard": "NMFU_VERIF", "enable": "environment variable NMFU_VERIF=1 (set by harness/check.py); hooks are no-ops otherwise",
            "baseline_off_cmd": "cd /repo && env -u NMFU_VERIF /venv/bin/python -m pytest -ra -q -p no:cacheprovider --timeout=900 --continue-on-collection-errors",
-           "source_commits": [], "add_only": True},
+           "source_commits": ["c46f622"], "add_only": True},
  "engines": [{"name": "coq", "path": "coq/", "serves_properties": sorted(CLAIMED), "kind_free_text": "Coq 8.16.1 development (models, specifications, soundness theorems, per-run certificates)"},
              {"name": "harness", "path": "harness/", "serves_properties": sorted(CLAIMED), "kind_free_text": "Python driver: regeneration, export, correspondence, failing-input search, evidence"}],
  "checks": [], "not_applicable": [],
